@@ -35,8 +35,14 @@ def check(ctx: Ctx) -> None:
             o.rule = "C08.R4"
     ctx.rule_text["C08.R4"] = ctx.rule_text.pop("C04.R1")
     ctx.floors["C08.R4"] = ctx.floors.pop("C04.R1")
-    from .c19 import r3 as c19_r3
+    from .c19 import r3 as c19_r3, r4 as c19_r4
     c19_r3(ctx, "C08.R5")
+    n0 = len(ctx.obs)
+    c19_r4(ctx)
+    for o in ctx.obs[n0:]:
+        o.rule = "C08.R6"
+    ctx.rule_text["C08.R6"] = ctx.rule_text.pop("C19.R4")
+    ctx.floors["C08.R6"] = ctx.floors.pop("C19.R4")
 
 
 def r1(ctx: Ctx) -> None:
@@ -112,6 +118,22 @@ def r1(ctx: Ctx) -> None:
         wit = find_path(g, r.id, [cp.id], avoid=[c.id for c in cands], labels=NORMAL,
                         edge_ok=lambda s_, d_, l_: (s_, d_) not in guard_edges)
         opt_b = wit is None
+    # the ETag of a successful pointer read always reaches the conditional write (an unparseable pointer is still a pointer:
+    # dropping its ETag turns the write into create-if-absent, which fails forever)
+    if isinstance(etag_arg, ast.Name) and r.kind == "call" and ctx.eff.storage_op(r) == "read_file_with_etag":
+        defs_from_r = [n for n in g.nodes if n.kind == "stmt" and isinstance(n.ast, ast.Assign) and etag_arg.id in
+                       [x for t in n.ast.targets for x in ([e.id for e in t.elts if isinstance(e, ast.Name)] if isinstance(t, ast.Tuple) else ([t.id] if isinstance(t, ast.Name) else []))]
+                       and r.ast in sl.origins(n.ast.value, n.id)["calls"]]
+        starts = [d for d, l in g.succ[r.id] if l in NORMAL]
+        w2 = None
+        for s_ in starts:
+            w2 = None if s_ in [d.id for d in defs_from_r] else find_path(g, s_, [cp.id], avoid=[d.id for d in defs_from_r], labels=NORMAL)
+            if w2:
+                break
+        ctx.ob("C08.R1", f, "after a successful pointer read its ETag reaches the conditional write on every path", r,
+               bool(defs_from_r) and w2 is None,
+               "the ETag variable handed to the commit point is (re)defined from the read's result on every path from the read",
+               witness=ctx.path_witness(f, w2))
     ok = flows and (opt_a or opt_b)
     ctx.ob("C08.R1", f, "validated version == version whose ETag keys the conditional write", cp, ok,
            f"etag flows from the pointer read: {flows}; validated metadata depends on that read: {opt_a}; name comparison "
